@@ -78,6 +78,30 @@ impl ReaderHandle { pub uninterp spec fn aborted(&self) -> bool; }
     requires !old(m)@.contains_key(k),  // @ob C08+C19.conns.restart_reader_for.no_reader_handle_is_overwritten_while_its_task_runs
     ensures final(m)@ == old(m)@.insert(k, v),
 { m.insert(k, v); }
+// ---------- the reader task (body of the `tokio::spawn(async move { .. })` in spawn_reader, verified as if run in place) ----------
+pub struct UplinkPacket { pub conn_id: u64, pub bytes: Vec<u8> }
+#[verifier::external_body] pub struct RecvMmsgBuffer { _p: () }
+impl RecvMmsgBuffer {
+    // the datagrams of the last received batch, in arrival order
+    pub uninterp spec fn view(&self) -> Seq<Seq<u8>>;
+    #[verifier::external_body] pub fn new() -> (r: RecvMmsgBuffer) { unimplemented!() }
+}
+// recvmmsg: Ok(n) = the buffer now holds n datagrams (nothing is assumed about them); Err = receive error
+#[verifier::external_body] pub fn sock_recv_batch(s: &SockArc, b: &mut RecvMmsgBuffer) -> (r: Result<usize, IoError>)
+    ensures r is Ok ==> final(b)@.len() == r->Ok_0,
+{ unimplemented!() }
+#[verifier::external_body] pub fn recv_buf_datagrams(b: &RecvMmsgBuffer) -> (r: Vec<Vec<u8>>)
+    ensures r@.len() == b@.len(), forall|i: int| 0 <= i < r@.len() ==> (#[trigger] r@[i])@ == b@[i],
+{ unimplemented!() }
+// UnboundedSender::send(..).is_err(): true = the event loop is gone
+#[verifier::external_body] pub fn tx_send_failed(tx: &PacketTx, p: UplinkPacket) -> bool { unimplemented!() }
+#[verifier::external_body] pub fn sleep_ms(ms: u64) { }
+// the non-empty datagrams among the first n of a batch, in order
+pub open spec fn relayed(b: Seq<Vec<u8>>, n: int) -> Seq<Seq<u8>>
+    decreases n
+{
+    if n <= 0 { Seq::empty() } else if b[n - 1]@.len() > 0 { relayed(b, n - 1).push(b[n - 1]@) } else { relayed(b, n - 1) }
+}
 // HashSet<u64>
 #[verifier::external_body] pub struct IdSet { _p: () }
 impl IdSet {
@@ -231,6 +255,30 @@ def _reader_scope_end(text):
         cb = rules.match_bracket(out, ob, '{', '}')
         out = out[:cb] + '    reader_drop(%s);\n    ' % m.group(1) + out[cb:]
         pos = m.end()
+
+
+def _task_body(text):
+    """R24: `let handle = tokio::spawn(async move { BODY });  ReaderHandle { handle }`  ->  `BODY` : the spawned task's body is verified as if
+    it ran in place, to completion; the JoinHandle / ReaderHandle construction and the return type are dropped."""
+    m = re.search(r'let handle = tokio::spawn\(async move \{', text)
+    if not m:
+        return text
+    ob = m.end() - 1
+    cb = rules.match_bracket(text, ob, '{', '}')
+    tail = re.match(r'\s*\);\s*ReaderHandle \{ handle \}\s*\}\s*$', text[cb + 1:])
+    if not tail:
+        return text
+    head = text[:m.start()]
+    head = re.sub(r'\) -> ReaderHandle \{', ') {', head)
+    head = head.replace('fn spawn_reader(', 'fn spawn_reader_task(')
+    return head + text[ob + 1:cb] + '\n}\n'
+
+
+def _send(text):
+    # every channel send is logged in the ghost `told` (bytes) and must carry this reader's connection id
+    return re.sub(r'packet_tx\s*\.send\((UplinkPacket \{.*?\})\)\s*\.is_err\(\)',
+                  lambda m: '({ let pkt_out = %s; proof { assert(pkt_out.conn_id == conn_id);  // @ob C09.reader.every_packet_carries_the_id_of_the_link_it_was_read_from\n told = told.push(pkt_out.bytes@); } tx_send_failed(&packet_tx, pkt_out) })' % ' '.join(m.group(1).split()),
+                  text, flags=re.S)
 
 
 def build():
@@ -500,6 +548,25 @@ def build():
         }
     }"""),
                }))
+    u.add(u.fn(UP, 'spawn_reader', sub='conns', qual='spawn_reader_task', erase_async=True, attrs='#[verifier::exec_allows_no_decreases_clause]\n',
+               pre_rewrite=[(_task_body, None, 1),
+                            (re.compile(r'for \(_addr, data\) in recv_buffer\.iter\(\) \{'), 'let batch_v = recv_buf_datagrams(&recv_buffer);\n                    for data in batch_v.iter() {', 1)],
+               post_rewrite=[('conn_id: ConnectionId', 'conn_id: u64', 1), ('socket: Arc<BatchUdpSocket>', 'socket: SockArc', 1), ('packet_tx: UnboundedSender<UplinkPacket>', 'packet_tx: PacketTx', 1),
+                             ('socket.recv_batch(&mut recv_buffer)', 'sock_recv_batch(&socket, &mut recv_buffer)', 1),
+                             ('SmallVec::new()', 'Vec::new()', None), ('vec_from_slice(data)', 'vec_from_slice(data.as_slice())', None),
+                             (_send, None, 1),
+                             (re.compile(r'tokio::time::sleep\(Duration::from_millis\((\d+)\)\)'), r'sleep_ms(\1)', None)],
+               loops={
+                   'vec_from_slice(': dict(inv=['data_nx <= batch_v.len()',
+                                              C('C09.reader.every_non_empty_datagram_of_a_batch_is_relayed_unchanged_in_order', 'told == told_batch.add(relayed(batch_v@, data_nx as int))')],
+                                           dec='batch_v.len() - data_nx',
+                                           before='                    let ghost told_batch = told;',
+                                           after='''                    proof {
+                        assert(told == told_batch.add(relayed(batch_v@, batch_v@.len() as int)));  // @ob C09.reader.every_non_empty_datagram_of_a_batch_is_relayed_unchanged_in_order
+                    }'''),
+                   'sock_recv_batch(': dict(inv=[]),
+               },
+               splices=[('@BEGIN', '        let ghost mut told: Seq<Seq<u8>> = Seq::empty();', 'after')]))
     u.add(u.fn(UP, 'restart_reader_for', sub='conns',
                pre_rewrite=[('conn.label.clone()', 'string_clone(&conn.label)', 1), ('packet_tx.clone()', 'tx_clone(packet_tx)', 1),
                             (re.compile(r'readers\.remove\(&([\w\.]+)\)'), r'readers_remove(readers, \1)', None),
